@@ -43,6 +43,11 @@ class _Continue(Exception):
     pass
 
 
+class _Goto(Exception):
+    def __init__(self, label):
+        self.label = label
+
+
 class _Return(Exception):
     def __init__(self, v):
         self.v = v
@@ -238,6 +243,8 @@ class Interp:
             self.stmt(fn.body, env, fn, depth)
         except _Return:
             raise
+        except _Goto as g:
+            raise Stop("goto %s: label not in an enclosing block" % g.label)
 
     # ----- statements
     def stmt(self, s, env, fn, depth):
@@ -324,7 +331,9 @@ class Interp:
         elif k == "LabelStmt":
             self.stmt(s.c[-1] if s.c else None, env, fn, depth)
         elif k == "GotoStmt":
-            raise Stop("goto is not modelled")
+            # forward jumps to a label of an enclosing block (cleanup / fail / done labels) are resumed
+            # by the block that holds the label; anything else is not modelled
+            raise _Goto(s.get("label"))
         elif s.get("omp"):
             for ch in s.kids():
                 if ch.k in ("CompoundStmt", "ForStmt"):
@@ -365,8 +374,26 @@ class Interp:
         return True
 
     def block(self, stmts, env, fn, depth):
-        for st in stmts:
-            self.stmt(st, env, fn, depth)
+        i = 0
+        jumps = 0
+        while i < len(stmts):
+            try:
+                self.stmt(stmts[i], env, fn, depth)
+            except _Goto as g:
+                tgt = None
+                for j, st in enumerate(stmts):
+                    if st.k == "LabelStmt" and st.get("label") == g.label:
+                        tgt = j
+                if tgt is None:
+                    raise
+                if tgt <= i:
+                    jumps += 1
+                    if jumps > 64:
+                        raise Stop("backward goto loop")
+                    self.tick()
+                i = tgt
+                continue
+            i += 1
 
     def switch(self, s, env, fn, depth):
         v = self.ev(s.c[-2], env, fn, depth)
